@@ -24,6 +24,7 @@ import Bermuda.Lemmas.ResampleMESpec
 import Bermuda.Lemmas.ResampleBoot
 import Bermuda.Lemmas.ResampleCW
 import Bermuda.Lemmas.ResampleChain
+import Bermuda.Lemmas.ResampleRows
 namespace Bermuda.Properties.C17
 open Bermuda Bermuda.Resample
 
@@ -775,6 +776,43 @@ theorem spec_chain_replicate {s rep : List Cell} {fields : List String} {d : Dra
     (hwf : ∀ c ∈ s, c.values.keys.Nodup) (hrows : RowsByLag s) :
     Spec.C17.chainOkSlice s rep i fields d.I = true :=
   spec_chain_replicate' h hu hk hs hnd hmd hwf hrows
+
+/-- **rows_by_lag.** The row layout `RowsByLag` is a CONSEQUENCE of the slice being what `Triangle.slices` delivers:
+sorted by `Cell.le`, one metadata, calendar-valid evaluation dates, distinct evaluation dates within a period
+(`SliceLayout`): rows of a period are contiguous and ordered by evaluation date, hence by lag
+(`dev_lag_strict_mono`), and `initialLag` is the lag of the row's first cell. -/
+theorem rows_by_lag {s : List Cell} (H : SliceLayout s) : RowsByLag s := rowsByLag_of_layout H
+
+/-- **spec_chain_slice_layout.** `spec_chain_slice` without the `RowsByLag` hypothesis (and without the separate
+coordinate hypothesis: distinct evaluation dates within a period give distinct coordinates) -/
+theorem spec_chain_slice_layout {s out rep : List Cell} {fields : List String} {I : IdxTable} {F : Factors} {i : Nat}
+    (hF : resampledAtas s fields I = .ok F) (h : developByAtas s F = .ok out)
+    (hp : rep.Perm (out.map (tagCell i))) (hk : kindsConsistent s = true) (H : SliceLayout s)
+    (hwf : ∀ c ∈ s, c.values.keys.Nodup) :
+    Spec.C17.chainOkSlice s rep i fields I = true :=
+  spec_chain_slice' hF h hp hk H.sorted (coords_nodup_of_layout H) H.oneMd hwf (rowsByLag_of_layout H)
+
+/-- **spec_chain_replicate_layout.** `Spec.C17.chainOkSlice` is true of replicate `i` of every age-to-age slice as
+the model computes it from numpy's index draws — under hypotheses that only describe a well-formed slice -/
+theorem spec_chain_replicate_layout {s rep : List Cell} {fields : List String} {d : Draws} {i : Nat}
+    (h : replicateD s fields d i = .ok rep) (hu : useAtas s = true) (hk : kindsConsistent s = true)
+    (H : SliceLayout s) (hwf : ∀ c ∈ s, c.values.keys.Nodup) :
+    Spec.C17.chainOkSlice s rep i fields d.I = true :=
+  spec_chain_replicate' h hu hk H.sorted (coords_nodup_of_layout H) H.oneMd hwf (rowsByLag_of_layout H)
+
+/-- **spec_chain_bootstrapD_single.** On a triangle with ONE slice the summed replicate of `bootstrapD` is the
+slice's replicate, so `Spec.C17.chainOkSlice` — the verdict `chain` of the driver — is true of every replicate of
+the model's `bootstrapD` output (age-to-age route, any index draws). Several slices: see notes (declared). -/
+theorem spec_chain_bootstrapD_single {t : List Cell} {n : Int} {field : Option (List String)}
+    {D : Nat → Nat → Draws} {reps : List (List Cell)} (h : bootstrapD t n field D = .ok reps)
+    (hne : t ≠ []) (hu : useAtas t = true) (hk : kindsConsistent t = true) (H : SliceLayout t)
+    (hwf : ∀ c ∈ t, c.values.keys.Nodup) :
+    ∀ i (hi : i < reps.length),
+      Spec.C17.chainOkSlice t reps[i] i (field.getD (fieldsOf t)) (D 0 i).I = true := by
+  intro i hi
+  obtain ⟨c0, hc0⟩ := List.exists_mem_of_ne_nil t hne
+  have hm : ∀ c ∈ t, c.md = c0.md := fun c hc => H.oneMd c hc c0 hc0
+  exact spec_chain_replicate_layout (bootstrapD_single h hne hm H.sorted i hi) hu hk H hwf
 
 /-- **dev_lag_strict_mono.** The development lag in months is strictly increasing in the evaluation date (valid
 calendar dates, any period end): within a period, sorting by evaluation date is sorting by lag — the fact behind
